@@ -2,11 +2,17 @@ import Driver.Common
 import Driver.TopicD
 import Driver.RouterD
 import Driver.CommitLogD
+import Driver.FrameD
+import Driver.CodecD
 
 def main (args : List String) : IO UInt32 := do
   match args with
   | ["topic"] => Driver.runHandler (Driver.TopicD.handler false)
   | ["topic", "--selftest-wrong"] => Driver.runHandler (Driver.TopicD.handler true)
+  | ["frame"] => Driver.runHandler (Driver.FrameD.handler false)
+  | ["frame", "--selftest-wrong"] => Driver.runHandler (Driver.FrameD.handler true)
+  | ["codec"] => Driver.CodecD.run false
+  | ["codec", "--selftest-wrong"] => Driver.CodecD.run true
   | ["clog"] => Driver.runHandler (Driver.CommitLogD.handler false)
   | ["clog", "--selftest-wrong"] => Driver.runHandler (Driver.CommitLogD.handler true)
   | ["router", prop] => Driver.runHandler (Driver.RouterD.handler prop false)
